@@ -2,7 +2,11 @@
    extracted Coq model (theories/Indexes.v) and prints one observation line per action, in the
    format checks/c10.py parses (parse_model_line). After every action every open view is read
    (ARead), exactly as the harness queries every open view after every action.
-   argv: cases out [legacy]      legacy = model of View.fetch before /repo 7300a1b *)
+   Environment inputs of the model (number of uncertain tags after a closure, converter scheduler finds
+   work) come from the case file as "envunc n" / "envconv b" lines that precede the action (observed on the
+   implementation by the harness).
+   argv: cases out [legacy]      legacy = model of View.fetch before /repo 7300a1b
+         enum cases out          enumerate every schedule of a fixed API action list *)
 open C10_model
 
 let rec pos_of_int (i : int) : positive =
@@ -10,7 +14,6 @@ let rec pos_of_int (i : int) : positive =
 let n_of_int (i : int) : n = if i = 0 then N0 else Npos (pos_of_int i)
 let rec int_of_pos = function XH -> 1 | XO p -> 2 * int_of_pos p | XI p -> 2 * int_of_pos p + 1
 let int_of_n = function N0 -> 0 | Npos p -> int_of_pos p
-let rec int_of_nat = function O -> 0 | S k -> 1 + int_of_nat k
 
 let si n = string_of_int (int_of_n n)
 let join sep f l = String.concat sep (List.map f l)
@@ -32,12 +35,13 @@ let print_state oc (st : state) =
   Buffer.add_string b (join "," si st.queue);
   Buffer.add_string b " jobs=";
   let js =
-    (match st.ijob with Some j -> [ "import:" ^ ph j.ij_phase ] | None -> [])
+    (match st.cjob with Some j -> [ "convert:" ^ ph j.cj_phase ] | None -> [])
+    @ (match st.ijob with Some j -> [ "import:" ^ ph j.ij_phase ] | None -> [])
     @ (match st.mjob with Some j -> [ "merge:" ^ ph j.mj_phase ] | None -> [])
     @ (match st.tjob with Some j -> [ "tag:" ^ ph j.tj_phase ] | None -> [])
   in
   Buffer.add_string b (String.concat "," js);
-  Buffer.add_string b (" unc=" ^ si st.unc ^ "/" ^ si st.ntags);
+  Buffer.add_string b (" unc=" ^ si st.unc);
   Buffer.add_string b (" next=" ^ si st.next_id);
   Buffer.add_char b '\n';
   Buffer.output_buffer oc b
@@ -46,11 +50,9 @@ let kind_of = function
   | "import" -> KImport
   | "merge" -> KMerge
   | "tag" -> KTag
+  | "convert" -> KConvert
   | k -> failwith ("unknown job kind " ^ k)
 
-(* ---- enumeration of every schedule of a fixed API action list (thorough tier) ----
-   input: H name / cap lines / "api <action>" lines / "limit n"; output: "H name" then one line per
-   complete schedule: tokens a (next API action) i m t (step of the parked import/merge/tag job). *)
 let parse_action op args =
   match (op, args) with
   | "import", ks -> AImport (List.map (fun s -> n_of_int (int_of_string s)) ks)
@@ -58,11 +60,32 @@ let parse_action op args =
   | "read", [ v ] -> ARead (n_of_int (int_of_string v))
   | "release", [ v ] -> ARelease (n_of_int (int_of_string v))
   | "tagadd", _ -> ATagAdd
-  | "tagdel", [ u; h ] -> ATagDel (u = "1", h = "1")
-  | "tagupd", [ u; h ] -> ATagUpd (u = "1", h = "1")
+  | "tagdel", [ h ] -> ATagDel (h = "1")
+  | "tagupd", [ h ] -> ATagUpd (h = "1")
+  | "convset", _ -> AConvSet
+  | "convremove", _ -> AConvRemove
+  | "convadd", _ -> AConvAdd
+  | "envunc", [ n ] -> AEnvUnc (n_of_int (int_of_string n))
+  | "envconv", [ b ] -> AEnvConvWork (b = "1")
   | "start", [ k ] -> AStart (kind_of k)
   | "complete", [ k ] -> AComplete (kind_of k)
   | _ -> failwith ("bad action " ^ op)
+
+let parse_packets pk =
+  List.map
+    (fun s ->
+      match String.split_on_char ':' s with
+      | [ f; b ] -> (n_of_int (int_of_string f), n_of_int (int_of_string b))
+      | _ -> failwith "bad packet")
+    pk
+
+(* ---- enumeration of every schedule of a fixed API action list (thorough tier) ----
+   input: H name / cap lines / "api <action>" lines / "limit n"; output: "H name" then one line per
+   complete schedule: tokens a (next API action) i m t (step of the parked import/merge/tag job).
+   The tag environment is generated here: every tag of these histories has a data filter, so an import that creates
+   a file makes all tags uncertain, a published tagging result makes its tag certain unless an import completed
+   meanwhile; histories with tagdel1 / tagupd1 have a single tag. *)
+type tagenv = { nt : int; un : int; dirty : bool }
 
 let enumerate () =
   let ic = open_in Sys.argv.(2) in
@@ -71,12 +94,41 @@ let enumerate () =
   let capdb (k : n) : (n * n) list = try List.assoc (int_of_n k) !caps with Not_found -> [] in
   let bads : int list ref = ref [] in
   let bad (k : n) : bool = List.mem (int_of_n k) !bads in
-  let api = ref [] and limit = ref 1000 and name = ref "" in
+  let api : string list ref = ref [] and limit = ref 1000 and name = ref "" in
+  (* one action with the environment the implementation would produce *)
+  let apply (st, te) (a : action) =
+    let has_ids = st.next_id <> N0 in
+    let te' =
+      match a with
+      | ATagAdd -> { te with nt = te.nt + 1; un = (te.un + if has_ids then 1 else 0) }
+      | ATagDel _ -> { te with nt = te.nt - 1; un = (if te.un > 0 then te.un - 1 else 0) }
+      | ATagUpd _ -> { te with un = ((if te.un > 0 then te.un - 1 else 0) + if has_ids then 1 else 0) }
+      | AComplete KImport -> (
+          match st.ijob with
+          | Some j when j.ij_phase = AtDone && j.ij_created <> [] -> { te with un = te.nt; dirty = true }
+          | _ -> te)
+      | AComplete KTag -> (
+          match st.tjob with
+          | Some j when j.tj_phase = AtDone && j.tj_valid -> { te with un = (if te.dirty then te.nt else te.un - 1) }
+          | _ -> te)
+      | _ -> te
+    in
+    let st1 = step_impl capdb bad st (AEnvUnc (n_of_int te'.un)) in
+    let st2 = if enabled st1 a then step_impl capdb bad st1 a else st in
+    (* a tagging job launched by this closure resets the during-tagging masks *)
+    let launched =
+      match (st.tjob, st2.tjob, a) with
+      | None, Some _, _ -> true
+      | Some _, Some _, AComplete KTag -> true
+      | _ -> false
+    in
+    (st2, if launched then { te' with dirty = false } else te')
+  in
   let flush_case () =
     if !name <> "" then begin
       output_string oc ("H " ^ !name ^ "\n");
       let count = ref 0 in
-      let rec go st rest path =
+      let rec go (st, te) rest path =
         if !count < !limit then begin
           let jobs =
             (match st.ijob with Some j -> [ ("i", if j.ij_phase = AtStart then AStart KImport else AComplete KImport) ] | None -> [])
@@ -89,13 +141,21 @@ let enumerate () =
           end
           else begin
             (match rest with
-            | mk :: tl -> let a = mk st in go (if enabled st a then step_impl capdb bad st a else st) tl ("a" :: path)
+            | line :: tl ->
+                let a =
+                  match List.filter (fun x -> x <> "") (String.split_on_char ' ' line) with
+                  | [ "tagdel1" ] -> ATagDel (te.un > 0 && st.tjob <> None)
+                  | [ "tagupd1" ] -> ATagUpd (te.un > 0 && st.tjob <> None)
+                  | op :: args -> parse_action op args
+                  | [] -> failwith "empty api"
+                in
+                go (apply (st, te) a) tl ("a" :: path)
             | [] -> ());
-            List.iter (fun (tok, a) -> go (step_impl capdb bad st a) rest (tok :: path)) jobs
+            List.iter (fun (tok, a) -> go (apply (st, te) a) rest (tok :: path)) jobs
           end
         end
       in
-      go init (List.rev !api) [];
+      go (init, { nt = 0; un = 0; dirty = false }) (List.rev !api) [];
       output_string oc (Printf.sprintf "# %d%s\n" !count (if !count >= !limit then " (limit)" else ""))
     end
   in
@@ -106,20 +166,8 @@ let enumerate () =
        match tok with
        | "H" :: nm -> flush_case (); name := String.concat " " nm; caps := []; api := []; bads := []
        | [ "bad"; k ] -> bads := int_of_string k :: !bads
-       | "cap" :: k :: pk ->
-           let ps = List.map (fun s -> match String.split_on_char ':' s with
-             | [ f; b ] -> (n_of_int (int_of_string f), n_of_int (int_of_string b)) | _ -> failwith "bad packet") pk in
-           caps := (int_of_string k, ps) :: !caps
-       | "api" :: op :: args ->
-           (* tagdel1 / tagupd1: the scenario has a single tag; the flags the harness will observe follow from the state *)
-           let single st = (match st.unc with N0 -> false | _ -> true) in
-           let mk =
-             match op with
-             | "tagdel1" -> fun st -> ATagDel (single st, single st && st.tjob <> None)
-             | "tagupd1" -> fun st -> ATagUpd (single st, single st && st.tjob <> None)
-             | _ -> let a = parse_action op args in fun _ -> a
-           in
-           api := mk :: !api
+       | "cap" :: k :: pk -> caps := (int_of_string k, parse_packets pk) :: !caps
+       | "api" :: rest -> api := String.concat " " rest :: !api
        | "limit" :: [ n ] -> limit := int_of_string n
        | _ -> ()
      done
@@ -151,37 +199,17 @@ let () =
              bads := [];
              stuck := false;
              output_string oc ("H " ^ String.concat " " name ^ "\n")
-         | "cap" :: k :: pk ->
-             let ps =
-               List.map
-                 (fun s ->
-                   match String.split_on_char ':' s with
-                   | [ f; b ] -> (n_of_int (int_of_string f), n_of_int (int_of_string b))
-                   | _ -> failwith "bad packet")
-                 pk
-             in
-             caps := (int_of_string k, ps) :: !caps
+         | "cap" :: k :: pk -> caps := (int_of_string k, parse_packets pk) :: !caps
          | [ "bad"; k ] -> bads := int_of_string k :: !bads
+         | ("envunc" | "envconv") :: _ when !stuck -> ()
+         | (("envunc" | "envconv") as op) :: args -> st := step !st (parse_action op args)   (* no observation line *)
          | op :: args ->
              if !stuck then output_string oc "STUCK earlier\n"
              else begin
-               let act =
-                 match (op, args) with
-                 | "obs", _ -> None
-                 | "import", ks -> Some (AImport (List.map (fun s -> n_of_int (int_of_string s)) ks))
-                 | "view", [ v ] -> Some (AView (n_of_int (int_of_string v)))
-                 | "read", [ v ] -> Some (ARead (n_of_int (int_of_string v)))
-                 | "release", [ v ] -> Some (ARelease (n_of_int (int_of_string v)))
-                 | "tagadd", _ -> Some ATagAdd
-                 | "tagdel", [ u; h ] -> Some (ATagDel (u = "1", h = "1"))
-                 | "tagupd", [ u; h ] -> Some (ATagUpd (u = "1", h = "1"))
-                 | "start", [ k ] -> Some (AStart (kind_of k))
-                 | "complete", [ k ] -> Some (AComplete (kind_of k))
-                 | _ -> failwith ("bad action " ^ line)
-               in
-               (match act with
-               | None -> ()
-               | Some a ->
+               (match op with
+               | "obs" -> ()
+               | _ ->
+                   let a = parse_action op args in
                    if not (enabled !st a) then begin
                      stuck := true;
                      output_string oc ("STUCK action not enabled in the model: " ^ line ^ "\n")
